@@ -984,7 +984,13 @@ class RTCSctpTransport(AsyncIOEventEmitter):
         self.__log_debug("< %s", chunk)
 
         # common
-        if isinstance(chunk, DataChunk):
+        if (
+            isinstance(chunk, (DataChunk, ForwardTsnChunk))
+            and self._last_received_tsn is None
+        ):
+            # no INIT / INIT ACK was received yet, the peer's TSNs are unknown
+            self.__log_debug("x Discarding chunk received out of the blue")
+        elif isinstance(chunk, DataChunk):
             await self._receive_data_chunk(chunk)
         elif isinstance(chunk, SackChunk):
             await self._receive_sack_chunk(chunk)
